@@ -374,7 +374,7 @@ func rulePU2() Rule {
 // ruleEF5: writer errors reach the caller.
 func ruleEF5() Rule {
 	return Rule{ID: "EF5", Kind: "must", Floor: 4,
-		Doc: "the io.Writer flows only into bufio.NewWriter; all output goes through that one buffered writer; print returns Flush's error and Config.Fprint/Fprint return their callee's error",
+		Doc: "the io.Writer flows only into bufio.NewWriter; all output goes through that one buffered writer; every exported function of the package that reports an error returns, on every exit that can mean success, the error of Flush - directly, as the result of a function of the package for which the same holds, or as nil only behind a tested call of such a function (an error that is returned under a test that it is not nil, or made by fmt.Errorf / errors.New, is an error already)",
 		Run: func(c *Ctx, rr *core.RuleResult) {
 			cf := c.mustFn(rr, "printer.(*Config).Fprint")
 			pf := c.mustFn(rr, "printer.(*printer).print")
@@ -443,37 +443,41 @@ func ruleEF5() Rule {
 			} else {
 				rr.Bad(cf, cf.Name+"|writer-use", cf.Pos(), "the caller's io.Writer is used directly: its write errors bypass the buffered writer's sticky error")
 			}
-			// returns
-			retCalls := func(f *core.Func, want string) (good, bad int) {
-				fi := f.Info()
-				f.OwnNodes(func(n ast.Node) bool {
-					r, ok := n.(*ast.ReturnStmt)
-					if !ok || len(r.Results) != 1 {
-						return true
+			// returns: every exported function of the package that reports an error hands its
+			// caller the error of Flush on every exit that can mean success
+			_, _ = pf, ff
+			done := map[*core.Func]bool{}
+			recorded := map[*core.Func]bool{}
+			var entries []*core.Func
+			for _, e := range c.funcsOfPkg("printer", false) {
+				if e.Decl == nil || e.Obj == nil || !e.Obj.Exported() || !lastResultIsError(e) {
+					continue
+				}
+				if recv := e.Decl.Recv; recv != nil && len(recv.List) == 1 {
+					if n := namedTypeName(e.Info().TypeOf(recv.List[0].Type)); n != "" && !ast.IsExported(strings.TrimPrefix(strings.TrimPrefix(n, "*"), "printer.")) {
+						continue
 					}
-					if call, ok := ast.Unparen(r.Results[0]).(*ast.CallExpr); ok && strings.HasSuffix(calleeName(fi, call), want) {
-						good++
-					} else if isNilIdent(fi, r.Results[0]) {
-						bad++
+				}
+				entries = append(entries, e)
+			}
+			for _, e := range entries {
+				v := c.ef5Flushing(e, done, 0)
+				key := e.Name + "|hands on the error of Flush"
+				recorded[e] = true
+				if !v.ok {
+					rr.Bad(e, key, v.pos, v.why)
+					continue
+				}
+				rr.OK(e, key, e.Pos(), "returned", v.why)
+			}
+			// the functions whose result the entry points return
+			for _, e := range entries {
+				for _, g := range c.ef5Flushing(e, done, 0).chain {
+					if gv := c.ef5Flushing(g, done, 0); gv.ok && !recorded[g] {
+						recorded[g] = true
+						rr.OK(g, g.Name+"|hands on the error of Flush", g.Pos(), "returned", gv.why)
 					}
-					return true
-				})
-				return
-			}
-			if g, b := retCalls(pf, "bufio.(*Writer).Flush"); g >= 1 && b == 0 {
-				rr.OK(pf, pf.Name+"|returns Flush()", pf.Pos(), "returned", "the buffered writer's (sticky) error is returned")
-			} else {
-				rr.Bad(pf, pf.Name+"|returns Flush()", pf.Pos(), "print does not return Flush's error on every normal exit: a failing writer is reported as success")
-			}
-			if g, b := retCalls(cf, "(*printer).print"); g >= 1 && b == 0 {
-				rr.OK(cf, cf.Name+"|returns print()", cf.Pos(), "returned", "the printer's error is returned")
-			} else {
-				rr.Bad(cf, cf.Name+"|returns print()", cf.Pos(), "Config.Fprint discards the printer's error")
-			}
-			if g, b := retCalls(ff, "(*Config).Fprint"); g >= 1 && b == 0 {
-				rr.OK(ff, ff.Name+"|returns c.Fprint()", ff.Pos(), "returned", "the error is passed on")
-			} else {
-				rr.Bad(ff, ff.Name+"|returns c.Fprint()", ff.Pos(), "Fprint discards Config.Fprint's error")
+				}
 			}
 			// no write bypasses the buffered writer, and no write can panic on error
 			for _, f := range c.funcsOfPkg("printer", false) {
@@ -1102,4 +1106,186 @@ func (c *Ctx) constantGlobal(v *types.Var) bool {
 	}
 	c.cache[key] = ok
 	return ok
+}
+
+func lastResultIsError(f *core.Func) bool {
+	sig, ok := f.Obj.Type().(*types.Signature)
+	if !ok || sig.Results().Len() == 0 {
+		return false
+	}
+	return sig.Results().At(sig.Results().Len()-1).Type().String() == "error"
+}
+
+type ef5Verdict struct {
+	ok    bool
+	why   string
+	pos   token.Pos
+	chain []*core.Func // functions of the package whose result is returned, transitively
+}
+
+// ef5Flushing decides whether every return of f hands on the error of bufio's
+// Flush.
+func (c *Ctx) ef5Flushing(f *core.Func, done map[*core.Func]bool, depth int) ef5Verdict {
+	if v, seen := c.cache["ef5:"+f.Name]; seen {
+		return v.(ef5Verdict)
+	}
+	if done[f] || depth > 4 {
+		return ef5Verdict{why: "recursive: not decided", pos: f.Pos()}
+	}
+	done[f] = true
+	fi := f.Info()
+	flushingCall := func(call *ast.CallExpr) (bool, *core.Func, string) {
+		if strings.HasSuffix(calleeName(fi, call), "bufio.(*Writer).Flush") {
+			return true, nil, ""
+		}
+		if fo := core.StaticCallee(fi, call); fo != nil {
+			if g := c.P.FuncOf(fo); g != nil && g.Pkg == f.Pkg && g.Body != nil && g != f && g.Obj != nil && lastResultIsError(g) {
+				v := c.ef5Flushing(g, done, depth+1)
+				return v.ok, g, v.why
+			}
+		}
+		return false, nil, ""
+	}
+	// `if err := CALL; err != nil { … return }` and `err := CALL` followed by that test
+	events := map[ast.Node]bool{} // the assignments whose error is tested
+	tested := func(n ast.Node) {
+		is, ok := n.(*ast.IfStmt)
+		if !ok {
+			return
+		}
+		be, ok := ast.Unparen(is.Cond).(*ast.BinaryExpr)
+		if !ok || be.Op != token.NEQ || !isNilIdent(fi, be.Y) {
+			return
+		}
+		id, ok := ast.Unparen(be.X).(*ast.Ident)
+		if !ok || len(is.Body.List) == 0 {
+			return
+		}
+		if _, isRet := is.Body.List[len(is.Body.List)-1].(*ast.ReturnStmt); !isRet {
+			return
+		}
+		from := func(st ast.Stmt) {
+			as, ok := st.(*ast.AssignStmt)
+			if !ok || len(as.Rhs) != 1 {
+				return
+			}
+			l, ok := as.Lhs[len(as.Lhs)-1].(*ast.Ident)
+			if !ok || l.Name != id.Name {
+				return
+			}
+			if call, ok := ast.Unparen(as.Rhs[0]).(*ast.CallExpr); ok {
+				if fl, _, _ := flushingCall(call); fl {
+					events[as] = true
+				}
+			}
+		}
+		if is.Init != nil {
+			from(is.Init)
+			return
+		}
+		// the statement before the test, in the same block
+		if blk, ok := c.P.Parent(is).(*ast.BlockStmt); ok {
+			for i, st := range blk.List {
+				if st == ast.Stmt(is) && i > 0 {
+					from(blk.List[i-1])
+				}
+			}
+		}
+	}
+	f.OwnNodes(func(x ast.Node) bool {
+		tested(x)
+		return true
+	})
+	seen := core.NewFlow(f).MustSeen(false, func(n ast.Node) bool { return events[n] }, nil)
+	out := ef5Verdict{}
+	bad, n := "", 0
+	var badPos token.Pos
+	f.OwnNodes(func(x ast.Node) bool {
+		r, ok := x.(*ast.ReturnStmt)
+		if !ok || bad != "" {
+			return true
+		}
+		n++
+		if len(r.Results) == 0 {
+			bad, badPos = "a bare return: what it returns is not decided", r.Pos()
+			return true
+		}
+		e := ast.Unparen(r.Results[len(r.Results)-1])
+		switch y := e.(type) {
+		case *ast.CallExpr:
+			name := calleeName(fi, y)
+			fl, g, gwhy := flushingCall(y)
+			switch {
+			case fl:
+				if g != nil {
+					out.chain = append(out.chain, g)
+					out.chain = append(out.chain, c.ef5Flushing(g, done, depth+1).chain...)
+				}
+			case name == "fmt.Errorf" || name == "errors.New":
+			case g != nil:
+				bad, badPos = "returns the result of "+g.Short+", which does not hand on the error of Flush: "+gwhy, r.Pos()
+			default:
+				bad, badPos = "returns the result of "+exprStr(y.Fun)+", which is not the error of Flush", r.Pos()
+			}
+		default:
+			if isNilIdent(fi, e) {
+				if !seen[r] {
+					bad, badPos = "returns nil without the error of Flush (or of a function that returns it) having been tested on every path: a failing writer is reported as success", r.Pos()
+				}
+				return true
+			}
+			guarded := false
+			// a variable that only ever holds the error of such a call
+			if id, isId := e.(*ast.Ident); isId {
+				if obj := fi.Uses[id]; obj != nil {
+					nAs, all := 0, true
+					f.OwnNodes(func(z ast.Node) bool {
+						as, ok := z.(*ast.AssignStmt)
+						if !ok {
+							return true
+						}
+						for i, l := range as.Lhs {
+							lid, ok := l.(*ast.Ident)
+							if !ok || (fi.Defs[lid] != obj && fi.Uses[lid] != obj) {
+								continue
+							}
+							nAs++
+							call, isCall := ast.Unparen(as.Rhs[0]).(*ast.CallExpr)
+							if len(as.Rhs) != 1 || !isCall || i != len(as.Lhs)-1 {
+								all = false
+								continue
+							}
+							if fl, _, _ := flushingCall(call); !fl {
+								all = false
+							}
+						}
+						return true
+					})
+					if nAs > 0 && all {
+						guarded = true
+					}
+				}
+			}
+			for _, gd := range guardsOf(c.P, r, nil) {
+				if be, ok := ast.Unparen(gd.cond).(*ast.BinaryExpr); ok && gd.pos && be.Op == token.NEQ && isNilIdent(fi, be.Y) && exprStr(be.X) == exprStr(e) {
+					guarded = true
+				}
+			}
+			if !guarded {
+				bad, badPos = "returns "+exprStr(e)+" outside a test that it is not nil: when it is nil nothing says that the output was written", r.Pos()
+			}
+		}
+		return true
+	})
+	switch {
+	case n == 0:
+		out.why, out.pos = "no return statement", f.Pos()
+	case bad != "":
+		out.why, out.pos = bad, badPos
+	default:
+		out.ok = true
+		out.why = fmt.Sprintf("%d returns: the error of Flush, of a function that returns it, or an error that is not nil", n)
+	}
+	c.cache["ef5:"+f.Name] = out
+	return out
 }
